@@ -161,6 +161,30 @@ Definition deliver (e : env) (b : bank) (t : etx) : bank * outcome :=
       end
   end.
 
+(** NibiruBankKeeper.SyncStateDBWithAccount mirrors the bank balance of an address into the StateDB account
+    eth.NibiruAddrToEthAddr(address) = the LAST 20 BYTES of the address.  For a 20-byte address that is its own
+    EVM account (what [deliver] models: the bank send is a transfer between the two accounts).  For a longer
+    address [y] (every wasm contract address is 32 bytes) the code as it stands writes bank(y) x 10^12 into the
+    StateDB account of the unrelated 20-byte address [ph] = last20(y), and StateDB.Commit then runs
+    SetAccBalance(ph, bank(y)): mint or burn of the difference.  [trunc] lists the pairs (y, ph) of the longer
+    addresses that a bank send of the tx synced; it is empty for the repaired behaviour (no mirror for an
+    address that is not 20 bytes long). *)
+Definition sync_truncated (b : bank) (yp : nat * nat) : option bank :=
+  set_acc_balance b (snd yp) (bal b (fst yp)).
+
+Fixpoint sync_all_truncated (b : bank) (trunc : list (nat * nat)) : option bank :=
+  match trunc with
+  | [] => Some b
+  | yp :: r => match sync_truncated b yp with None => None | Some b1 => sync_all_truncated b1 r end
+  end.
+
+Definition deliver_cur (trunc : list (nat * nat)) (e : env) (b : bank) (t : etx) : bank * outcome :=
+  let '(b1, o) := deliver e b t in
+  match o with
+  | Ok => match sync_all_truncated b1 trunc with Some b2 => (b2, Ok) | None => (b1, Stuck) end
+  | _ => (b1, o)      (* a failed EVM run reverts the journal entry of the mirror write as well *)
+  end.
+
 Fixpoint run (e : env) (b : bank) (ts : list etx) : bank * list outcome :=
   match ts with
   | [] => (b, [])
